@@ -4,6 +4,7 @@ package main
 // counted in RunResult.Stubs and listed in the evidence.
 
 import (
+	"net"
 	"crypto/sha256"
 	"encoding/binary"
 	"encoding/hex"
@@ -70,6 +71,19 @@ func init() {
 		"(*sync.Mutex).Lock":               icMutexLock,
 		"(*sync.Mutex).Unlock":             icMutexUnlock,
 		"(*sync.Mutex).TryLock":            icMutexTryLock,
+		"(net.IP).IsLoopback":              icNetIPPred(net.IP.IsLoopback),
+		"(net.IP).IsLinkLocalUnicast":      icNetIPPred(net.IP.IsLinkLocalUnicast),
+		"(net.IP).IsLinkLocalMulticast":    icNetIPPred(net.IP.IsLinkLocalMulticast),
+		"(net.IP).IsPrivate":               icNetIPPred(net.IP.IsPrivate),
+		"(net.IP).IsUnspecified":           icNetIPPred(net.IP.IsUnspecified),
+		"(net.IP).IsGlobalUnicast":         icNetIPPred(net.IP.IsGlobalUnicast),
+		"(net.IP).IsMulticast":             icNetIPPred(net.IP.IsMulticast),
+		"net.SplitHostPort":                icNetSplitHostPort,
+		"net.ParseIP":                      icNetParseIP,
+		"(*sync.Map).Load":                 icSyncMapLoad,
+		"(*sync.Map).Store":                icSyncMapStore,
+		"(*sync.Map).LoadOrStore":          icSyncMapLoadOrStore,
+		"(*sync.Map).Delete":               icSyncMapDelete,
 		"(*sync.Once).Do":                  icOnceDo,
 		"(*sync.WaitGroup).Add":            icWGAdd,
 		"(*sync.WaitGroup).Done":           icWGDone,
@@ -1451,4 +1465,113 @@ func icSlicesGrow(e *Engine, fr *frame, fn *ssa.Function, args []Value, c *ssa.C
 	e.allocCheck(n)
 	// capacity is not observable by the code under analysis beyond append behaviour
 	return args[0], true
+}
+
+// ---------- sync.Map (sequential semantics over the engine's map model) ----------
+
+func (e *Engine) syncMapOf(p Value) *MapObj {
+	ptr, ok := p.(*Pointer)
+	if !ok || ptr.cell == nil {
+		panic(e.unsupported("sync.Map receiver"))
+	}
+	if e.syncMaps == nil {
+		e.syncMaps = map[*Cell]*MapObj{}
+	}
+	m := e.syncMaps[ptr.cell]
+	if m == nil {
+		any := types.NewInterfaceType(nil, nil)
+		m = &MapObj{index: map[string]int{}, kt: any, vt: any}
+		e.syncMaps[ptr.cell] = m
+	}
+	return m
+}
+
+func icSyncMapLoad(e *Engine, fr *frame, fn *ssa.Function, args []Value, c *ssa.CallCommon) (Value, bool) {
+	m := e.syncMapOf(args[0])
+	e.raceAccessMapAtomic(m)
+	if i := e.mapFind(m, args[1]); i >= 0 {
+		return &Tuple{vals: []Value{m.vals[i], e.tt.True}}, true
+	}
+	return &Tuple{vals: []Value{&Iface{}, e.tt.False}}, true
+}
+
+func icSyncMapStore(e *Engine, fr *frame, fn *ssa.Function, args []Value, c *ssa.CallCommon) (Value, bool) {
+	m := e.syncMapOf(args[0])
+	e.raceAccessMapAtomic(m)
+	e.mapSet(m, args[1], args[2])
+	return nil, true
+}
+
+func icSyncMapLoadOrStore(e *Engine, fr *frame, fn *ssa.Function, args []Value, c *ssa.CallCommon) (Value, bool) {
+	m := e.syncMapOf(args[0])
+	e.raceAccessMapAtomic(m)
+	if i := e.mapFind(m, args[1]); i >= 0 {
+		return &Tuple{vals: []Value{m.vals[i], e.tt.True}}, true
+	}
+	e.mapSet(m, args[1], args[2])
+	return &Tuple{vals: []Value{args[2], e.tt.False}}, true
+}
+
+func icSyncMapDelete(e *Engine, fr *frame, fn *ssa.Function, args []Value, c *ssa.CallCommon) (Value, bool) {
+	m := e.syncMapOf(args[0])
+	e.raceAccessMapAtomic(m)
+	e.mapDelete(m, args[1])
+	return nil, true
+}
+
+// sync.Map operations are synchronised internally: they are not logged as plain accesses.
+func (e *Engine) raceAccessMapAtomic(m *MapObj) {}
+
+// ---------- net address parsing on concrete strings (flag "real-net") ----------
+// Without the flag these calls keep their oracle redirects (redirectTable).
+
+func icNetSplitHostPort(e *Engine, fr *frame, fn *ssa.Function, args []Value, c *ssa.CallCommon) (Value, bool) {
+	if !e.cfg.Flags["real-net"] {
+		return nil, false
+	}
+	s, ok := e.goString(args[0])
+	if !ok {
+		panic(e.unsupported("net.SplitHostPort of a symbolic address"))
+	}
+	h, p, err := net.SplitHostPort(s)
+	var ev Value = &Iface{}
+	if err != nil {
+		ev = e.newErrorString(e.concStr(err.Error()))
+	}
+	return &Tuple{vals: []Value{e.concStr(h), e.concStr(p), ev}}, true
+}
+
+func icNetParseIP(e *Engine, fr *frame, fn *ssa.Function, args []Value, c *ssa.CallCommon) (Value, bool) {
+	if !e.cfg.Flags["real-net"] {
+		return nil, false
+	}
+	s, ok := e.goString(args[0])
+	if !ok {
+		panic(e.unsupported("net.ParseIP of a symbolic string"))
+	}
+	ip := net.ParseIP(s)
+	if ip == nil {
+		return &Slice{nilS: true, off: e.c64(0), len: e.c64(0), cap: e.c64(0)}, true
+	}
+	return e.bytesFromGo([]byte(ip)), true
+}
+
+// icNetIPPred evaluates a (net.IP) predicate natively on a concrete address
+// (flag "real-net"); net's package-level address constants are not
+// initialised in the engine, so the real bodies cannot be interpreted.
+func icNetIPPred(f func(net.IP) bool) interceptFn {
+	return func(e *Engine, fr *frame, fn *ssa.Function, args []Value, c *ssa.CallCommon) (Value, bool) {
+		if !e.cfg.Flags["real-net"] {
+			return nil, false
+		}
+		sl, _ := args[0].(*Slice)
+		if sl == nil || sl.nilS {
+			return e.tt.Bool(f(nil)), true
+		}
+		b, ok := e.goBytes(sl)
+		if !ok {
+			panic(e.unsupported("net.IP predicate on a symbolic address"))
+		}
+		return e.tt.Bool(f(net.IP(b))), true
+	}
 }
